@@ -510,9 +510,14 @@ def clean_decision_table(ctx: Ctx, rule: str, all_owners: bool = False) -> None:
             if any(norm.show(c) == "not (is_reversible)" or "is_reversible" in norm.show(c) for c in conds):
                 pass
     # region analysis of the reversibility computation
-    rev_loops = [l for l in fn.node.body if isinstance(l, ast.For) and ast.unparse(l.iter) == "self.objects"]
-    if len(rev_loops) != 1:
+    from ..canon import inline_locals
+
+    # a sub-expression hoisted into a local (default_mode = object_params["unset_mode"]) is the same test
+    fbody = inline_locals(fn.node, keep={"object_params"}).body
+    rev_loops = [l for l in fbody if isinstance(l, ast.For) and ast.unparse(l.iter) == "self.objects"]
+    if len(rev_loops) != 1 or len([l for l in fn.node.body if isinstance(l, ast.For) and ast.unparse(l.iter) == "self.objects"]) != 1:
         raise AnalysisError(f"{fref}: reversibility loop over self.objects not found")
+    rl_orig = [l for l in fn.node.body if isinstance(l, ast.For) and ast.unparse(l.iter) == "self.objects"][0]
     rl = rev_loops[0]
     src = ast.unparse(rl)
     modes = sorted({c.args[0].value for c in calls_in(rl) if call_name(c) == "get" and c.args
@@ -524,7 +529,7 @@ def clean_decision_table(ctx: Ctx, rule: str, all_owners: bool = False) -> None:
         return any(isinstance(s, ast.Assign) and ast.unparse(s.targets[0]) == "is_reversible" and isinstance(s.value, ast.Constant) and s.value.value is False for s in stmts)
 
     # "no object is reversible -> False": the for/else form, or the flag initialised before the loop
-    has_else_false = _false_init(rl.orelse) or _false_init(fn.node.body[:fn.node.body.index(rl)])
+    has_else_false = _false_init(rl.orelse) or _false_init(fbody[:fbody.index(rl)])
     has_break = any(isinstance(n, ast.Break) for n in ast.walk(rl))
     exact = sorted(ast.unparse(c.left) for c in cmp_f) == sorted([
         "object_params.get('unset_mode_images', object_params['unset_mode'])[0]",
@@ -541,6 +546,7 @@ def clean_decision_table(ctx: Ctx, rule: str, all_owners: bool = False) -> None:
     ctx.record(rule + "r", "TABLE", fref, "reversible iff some object has unset_mode_images or unset_mode_vms (each falling back to the object's generic unset_mode) starting with 'f'; no objects -> not reversible",
                ok_rev, {"modes": modes, "first_letter_tests": len(cmp_f)},
                "" if ok_rev else "the reversibility test of default_clean_decision changed")
+    rl = rl_orig
     after = fn.node.body[fn.node.body.index(rl) + 1:]
     ok_split = (len(after) == 1 and isinstance(after[0], ast.If))
     if not ok_split:
